@@ -645,6 +645,59 @@ async def multistatement_cases(chk, rng, count):
         await b.finish()
 
 
+async def hinted_cases(chk, rng, count):
+    """statements that pass through the session layer's own machinery before they reach the application — optimizer hints
+    (`/*+ SET_VAR(...) */`), a leading comment, a trailing `;` — stream like any other: with a client that does not read,
+    only a bounded number of rows is pulled, and another connection's PING is answered"""
+    for i in range(count):
+        ncols = 1
+        asyncgen = rng.random() < 0.5
+        src = Source([rng.choice([1, 10, 200])], ncols, unbounded=True, asyncgen=asyncgen)
+        app = MultiApp()
+        app.sources = [src]
+        app.cols = typed_cols(ncols)
+        srv = mkserver([app, RecSession()])
+        a, b = SPeer(srv), SPeer(srv)
+        caps = int(BASE) | (DEP if rng.random() < 0.5 else 0)
+        await a.login(caps=caps)
+        await b.login()
+        sql = rng.choice([b"SELECT /*+ SET_VAR(max_execution_time=1000) */ c FROM t", b"SELECT /*+ SET_VAR(sql_mode='ANSI') SET_VAR(time_zone='+01:00') */ c FROM t",
+                          b"/* trace-id 7 */ SELECT c FROM t", b"SELECT c FROM t;", b"SELECT /*+ MAX_EXECUTION_TIME(1000) */ c FROM t"])
+        proto = rng.choice(["text", "binary"])
+        desc = dict(sql=sql.decode(), source=("async generator" if asyncgen else "generator") + ", unbounded", proto=proto, seed=chk.seed, case=i)
+        chk.count("hinted:" + proto)
+        chk.case(("hinted", sql, asyncgen, proto))
+        src.t = a.t
+        a.t.src = src
+        if proto == "binary":
+            out = await a.cmd(b"\x16" + sql)
+            sid = struct.unpack_from("<I", out[0][1], 1)[0]
+            a.take()
+            a.t.block()
+            a.t.pulled_at_block = src.pulled
+            a.t.feed(pkt(0, com_stmt_execute(sid, [], caps=caps)))
+        else:
+            a.t.block()
+            a.t.pulled_at_block = src.pulled
+            a.t.feed(pkt(0, b"\x03" + sql))
+        b.t.feed(pkt(0, b"\x0e"))
+        for _ in range(40):
+            p0 = src.pulled
+            await settle(20)
+            if src.stop or a.task.done() or src.pulled == p0:
+                break
+        pong = b.take()
+        if src.stop or src.pulled > 2 * BOUND + BATCH:
+            chk.fail("rows pulled without bound while the client was not reading", desc, dict(pulled=src.pulled, bound=BOUND, stopped=src.stop))
+        elif not pong:
+            chk.fail("another connection's PING was not answered while the statement streamed", desc, dict(pulled=src.pulled))
+        for x in (a, b):
+            x.task.cancel()
+        await settle(5)
+        await a.finish()
+        await b.finish()
+
+
 async def fairness_cases(chk, rng, count):
     lines, impl, descs = [], [], []
     ks = [0, 1, BATCH - 1, BATCH, BATCH + 1, 2 * BATCH - 1, 2 * BATCH, 2 * BATCH + 1]
@@ -801,6 +854,7 @@ def main():
         await fairness_cases(chk, rng, 150 if big else 12)
         await inference_cases(chk, rng, 300 if big else 25)
         await multistatement_cases(chk, rng, 120 if big else 10)
+        await hinted_cases(chk, rng, 120 if big else 10)
     asyncio.run(go())
     chk.assumptions = [
         "the transport is asyncio's flow-control contract (pause_writing/resume_writing → StreamWriter.drain); the OS socket buffer below it is not modelled",
